@@ -58,7 +58,9 @@ Granted(e) == e.replied /\ ~e.err /\ e.has107
 
 (* clauses of the C09 statement contradicted by the observation of step e; u0/u1: model before/after *)
 UpJudge(e, u0, u1, o1) ==
-  CASE e.op = "resume" ->
+  CASE e.op = "request" ->
+         {x \in {"ResumeCompletes"} : o1.granted /\ ~Granted(e) /\ u0.cuts > 0}
+    [] e.op = "resume" ->
          IF o1.granted
            THEN {x \in {"ResumeOffset"} :
                    ~(Granted(e) /\ e.has203 /\ e.rflt) \/ e.off # o1.off \/ e.off # e.incSize}
